@@ -7,6 +7,8 @@ def main():
     vlib.build(quiet=False)
     bad = 0
     for root, _, files in os.walk(vlib.SPEC):
+        if os.path.basename(root) == "proofs":
+            continue          # TLAPS proof modules extend TLAPS.tla, which only tlapm provides; they are checked by tlapm
         for f in sorted(files):
             if f.endswith(".tla"):
                 p = subprocess.run(["java", "-DTLA-Library=%s:%s:%s" % (vlib.SPEC, vlib.SPEC + "/mc", vlib.SPEC + "/trace"),
